@@ -3,9 +3,9 @@
 set -u
 PATCH="$1"; ID="$2"; TIER="${3:-quick}"
 cd /repo || exit 2
-git diff --quiet || { echo "/repo has uncommitted changes" >&2; exit 2; }
+git diff --quiet HEAD || { echo "/repo has uncommitted changes" >&2; exit 2; }
 git apply "$PATCH" || { echo "patch does not apply" >&2; exit 2; }
 ( cd /verif && ./check "$ID" "$TIER" > "/tmp/seedrun-$ID.log" 2>&1 ); RC=$?
-git -C /repo checkout -- . ; git -C /repo clean -fdq -e target
+git -C /repo reset -q --hard HEAD ; git -C /repo clean -fdq -e target
 echo "exit=$RC"; grep -E '^(VIOLATION|KNOWN-FINDING|MACHINERY|  signature|\[C)' "/tmp/seedrun-$ID.log" | head -20
 exit 0
